@@ -12,7 +12,8 @@ LEVEL = "exploration"
 BUDGET = {"quick": 2400, "thorough": 40000}
 RULE = (
     "case = generated scenario (max_nodes in {None,1,2,3}, processes-per-node in {unset,1,2,3}, node CPU count 1-4) "
-    "x schedule; after every sbatch the simulator's count of PENDING+RUNNING batches of the submission must be <= "
+    "x schedule x up to 3 moments at which the scheduler shows a queued/running batch in a non-terminal state outside "
+    "JADE's table (REQUEUED, SUSPENDED, RESIZING, ...; a suspended batch's processes do not run); after every sbatch the simulator's count of PENDING+RUNNING batches of the submission must be <= "
     "max_nodes; after every job launch the number of live job processes of that node must be <= "
     "processes-per-node (or the node's SLURM_CPUS_ON_NODE when unset; local mode: the machine's CPU count); "
     "non-trivial = max_nodes set and more batches than max_nodes, or a batch with more jobs than workers; distinct "
@@ -23,12 +24,19 @@ setup, teardown = C.setup, C.teardown
 
 
 def strategy(tier):
-    return st.one_of(C.world_cases(), C.world_cases(), C.world_cases(), C.world_cases(mode="local", max_groups=1))
+    from jv import gen
+
+    def cases(**kw):
+        return st.fixed_dictionaries({"scn": gen.scenarios(**kw), "schedule": gen.schedules(),
+                                      "exotic": st.lists(st.fixed_dictionaries({"at": st.integers(10, 400), "steps": st.integers(10, 200),
+                                                                                 "which": st.integers(0, 7)}), max_size=3)})
+
+    return st.one_of(cases(), cases(), cases(), cases(mode="local", max_groups=1))
 
 
 def run_case(case):
     scn = case["scn"]
-    with H.Sim(scn, schedule=case["schedule"]) as sim:
+    with H.Sim(scn, schedule=case["schedule"], exotic=case.get("exotic", ())) as sim:
         sim.submit()
         outcome = sim.drive()
         res = C.base_result(case, sim, outcome)
@@ -62,6 +70,8 @@ def run_case(case):
             res["classes"].append("more_batches_than_max_nodes")
         if crowded:
             res["classes"].append("batch_larger_than_workers")
+        if sim.w.events("exotic"):
+            res["classes"].append("batch_shown_in_unusual_state")
         if res["nontrivial"] or v:
             res["sample"] = C.sample_of(case, sim, {"peak_active_batches": peak_nodes})
         if v:
